@@ -181,8 +181,8 @@ func (c *conn) receive() (err error) {
 		err = core.InvalidResponseError{}
 		return
 	}
-	body := make([]byte, length)
-	if _, err = io.ReadAtLeast(c.Conn, body, length); err != nil {
+	var body []byte
+	if body, err = readBody(c.Conn, length); err != nil {
 		return
 	}
 	if !ok {
